@@ -3,6 +3,7 @@
 # tools/mutant.sh <patch> --baseline             run the repository's own tests with the patch (must still pass)
 # exit status: that of the check (1 = violation detected) / of baseline.sh
 set -u
+HERE="$(cd "$(dirname "$0")/.." && pwd)"   # works from a `vp run` snapshot too: everything is taken from this tree
 PATCH=$(readlink -f "$1"); shift
 WHAT=$1; shift
 TIER=${1:-quick}
@@ -10,7 +11,7 @@ export GOFLAGS=-mod=mod GOPROXY=off GOSUMDB=off GOTOOLCHAIN=local GOCACHE=/verif
 W=$(mktemp -d /scratch/mut-XXXXXX)
 trap 'rm -rf "$W"' EXIT
 mkdir -p "$W/src" "$W/root/evidence" "$W/root/replays"
-cp /verif/known_findings.json "$W/root/"
+cp "$HERE/known_findings.json" "$W/root/"
 # copy the files the patch touches, apply, build the overlay map
 FILES=$(grep '^+++ b/' "$PATCH" | sed 's#^+++ b/##')
 OV="$W/overlay.json"
@@ -44,6 +45,6 @@ sys.exit(1 if missing else 0)
 PY
   exit $?
 fi
-cd /verif
+cd "$HERE"
 VERIF_EXTRA_OVERLAY="$OV" VERIF_ROOT="$W/root" VERIF_BINDIR="$W/bin" ./run "$WHAT" "$TIER" | cut -c1-260 | tail -12
 exit ${PIPESTATUS[0]}
